@@ -127,10 +127,10 @@ Proof.
   - rewrite (val_char_nonws _ Ha Bl). reflexivity.
 Qed.
 
-Lemma wf_cont_okline : forall l, wf_cont l = true -> okline l = true.
+Lemma wf_cont_okline : forall l, xwf_cont l = true -> okline l = true.
 Proof.
-  intros l H. unfold wf_cont in H.
-  apply andb_prop in H as [H Hs]. apply andb_prop in H as [H He]. apply andb_prop in H as [_ Hv].
+  intros l H. unfold xwf_cont in H.
+  apply andb_prop in H as [H He]. apply andb_prop in H as [_ Hv].
   unfold okline. rewrite (forallb_impl _ _ _ val_char_plain Hv), (exists_nonblank_nonws _ Hv He). reflexivity.
 Qed.
 
@@ -139,23 +139,22 @@ Record wf_field_facts (f : field) : Prop := {
   wff_name : forallb name_char (f_name f) = true;
   wff_val : forallb val_char (f_val f) = true;
   wff_val_start : starts_blank (f_val f) = false;
-  wff_short : short (first_line f) = true;
-  wff_cont : forallb wf_cont (f_cont f) = true
+  wff_cont : forallb xwf_cont (f_cont f) = true
 }.
 
-Lemma wf_field_inv : forall f, wf_field f = true -> wf_field_facts f.
+Lemma wf_field_inv : forall f, xwf_field f = true -> wf_field_facts f.
 Proof.
-  intros f H. unfold wf_field in H.
-  apply andb_prop in H as [H H6]. apply andb_prop in H as [H H5]. apply andb_prop in H as [H H4].
+  intros f H. unfold xwf_field in H.
+  apply andb_prop in H as [H H6]. apply andb_prop in H as [H H4].
   apply andb_prop in H as [H H3]. apply andb_prop in H as [H1 H2].
   constructor; auto.
   - destruct (f_name f); [discriminate|discriminate].
   - destruct (starts_blank (f_val f)); [discriminate|reflexivity].
 Qed.
 
-Lemma first_line_okline : forall f, wf_field f = true -> okline (first_line f, f_eol f) = true.
+Lemma first_line_okline : forall f, xwf_field f = true -> okline (first_line f, f_eol f) = true.
 Proof.
-  intros f H. destruct (wf_field_inv f H) as [Hne Hn Hv _ _ _].
+  intros f H. destruct (wf_field_inv f H) as [Hne Hn Hv _ _].
   unfold okline, first_line. cbn [fst]. apply andb_true_intro. split.
   - rewrite !forallb_app. rewrite (forallb_impl _ _ _ (fun b Hb => proj1 (name_char_plain b Hb)) Hn).
     rewrite (forallb_impl _ _ _ val_char_plain Hv). reflexivity.
@@ -166,14 +165,14 @@ Qed.
 Lemma forallb_okline_app : forall a b, forallb okline (a ++ b) = forallb okline a && forallb okline b.
 Proof. intros. apply forallb_app. Qed.
 
-Lemma block_lines_ok : forall fs, forallb wf_field fs = true -> forallb okline (block_lines fs) = true.
+Lemma block_lines_ok : forall fs, forallb xwf_field fs = true -> forallb okline (block_lines fs) = true.
 Proof.
   induction fs as [|f fs IH]; cbn [forallb block_lines flat_map]; [reflexivity|].
   intros H. apply andb_prop in H as [Hf Hfs].
   change (flat_map field_lines fs) with (block_lines fs).
   rewrite forallb_app. rewrite (IH Hfs), andb_true_r.
   unfold field_lines. cbn [forallb]. rewrite (first_line_okline f Hf). cbn [andb].
-  destruct (wf_field_inv f Hf) as [_ _ _ _ _ Hc].
+  destruct (wf_field_inv f Hf) as [_ _ _ _ Hc].
   clear -Hc. induction (f_cont f) as [|l ls IHl]; cbn [forallb] in *; [reflexivity|].
   apply andb_prop in Hc as [Hl Hls]. rewrite (wf_cont_okline l Hl), (IHl Hls). reflexivity.
 Qed.
@@ -187,14 +186,50 @@ Qed.
 Lemma block_lines_ne : forall fs, fs <> [] -> block_lines fs <> [].
 Proof. intros [|f fs] H; [congruence|]. cbn. discriminate. Qed.
 
+(* the class without the length bound contains the class *)
+Lemma wf_x_cont : forall l, wf_cont l = true -> xwf_cont l = true.
+Proof. intros l H. unfold wf_cont in H. apply andb_prop in H as [H _]. exact H. Qed.
+
+Lemma wf_x_field : forall f, wf_field f = true -> xwf_field f = true.
+Proof.
+  intros f H. unfold wf_field in H. unfold xwf_field.
+  apply andb_prop in H as [H H6]. apply andb_prop in H as [H _]. rewrite H. cbn [andb].
+  clear H. induction (f_cont f) as [|l ls IH]; cbn [forallb] in *; [reflexivity|].
+  apply andb_prop in H6 as [Hl Hls]. rewrite (wf_x_cont l Hl), (IH Hls). reflexivity.
+Qed.
+
+Lemma wf_x_all : forall fs, forallb wf_field fs = true -> forallb xwf_field fs = true.
+Proof.
+  induction fs as [|f fs IH]; cbn [forallb]; [reflexivity|]. intros H. apply andb_prop in H as [Hf Hfs].
+  rewrite (wf_x_field f Hf), (IH Hfs). reflexivity.
+Qed.
+
+Lemma xwf_block_inv : forall fs, xwf_block fs = true -> fs <> [] /\ forallb xwf_field fs = true.
+Proof.
+  intros fs H. unfold xwf_block in H. apply andb_prop in H as [H1 H2]. split; [|exact H2].
+  destruct fs; [discriminate|discriminate].
+Qed.
+
+Lemma wf_x_block : forall fs, wf_block fs = true -> xwf_block fs = true.
+Proof.
+  intros fs H. destruct (wf_block_inv fs H) as [Hne Hall]. unfold xwf_block.
+  rewrite (wf_x_all fs Hall). destruct fs; [congruence|reflexivity].
+Qed.
+
+(* boundary search on a rendered block whose lines may be over-long *)
+Lemma search_xwf : forall fs blank B,
+  xwf_block fs = true -> blank_ok blank ->
+  search (render fs ++ blank ++ B) = Some (render fs ++ blank, B).
+Proof.
+  intros fs blank B Hwf Hb. destruct (xwf_block_inv fs Hwf) as [Hne Hall].
+  unfold render. apply search_block; auto using block_lines_ne, block_lines_ok.
+Qed.
+
 (* boundary search on a rendered well-formed block *)
 Lemma search_wf : forall fs blank B,
   wf_block fs = true -> blank_ok blank ->
   search (render fs ++ blank ++ B) = Some (render fs ++ blank, B).
-Proof.
-  intros fs blank B Hwf Hb. destruct (wf_block_inv fs Hwf) as [Hne Hall].
-  unfold render. apply search_block; auto using block_lines_ne, block_lines_ok.
-Qed.
+Proof. intros fs blank B Hwf Hb. exact (search_xwf fs blank B (wf_x_block fs Hwf) Hb). Qed.
 
 (* ------------------------------------------------------------------ *)
 (* B.  hnorm                                                           *)
@@ -307,27 +342,27 @@ Proof.
 Qed.
 
 Lemma group_conts : forall conts rest pend fs,
-  forallb wf_cont conts = true -> group rest = Some (pend, fs) ->
+  forallb xwf_cont conts = true -> group rest = Some (pend, fs) ->
   group (conts ++ rest) = Some (conts ++ pend, fs).
 Proof.
   induction conts as [|[c e] conts IH]; intros rest pend fs H G.
   - exact G.
   - cbn [forallb] in H. apply andb_prop in H as [Hc H].
     cbn [app group]. rewrite (IH rest pend fs H G).
-    unfold wf_cont in Hc. cbn [fst] in Hc.
-    apply andb_prop in Hc as [Hc _]. apply andb_prop in Hc as [Hc _]. apply andb_prop in Hc as [Hs _].
+    unfold xwf_cont in Hc. cbn [fst] in Hc.
+    apply andb_prop in Hc as [Hc _]. apply andb_prop in Hc as [Hs _].
     rewrite Hs. destruct c; [discriminate|]. reflexivity.
 Qed.
 
 Definition tail_ok (t : list hline) : Prop := t = [] \/ exists e, t = [([], e)].
 
 Lemma group_fields : forall fs t,
-  forallb wf_field fs = true -> tail_ok t -> group (block_lines fs ++ t) = Some ([], fs).
+  forallb xwf_field fs = true -> tail_ok t -> group (block_lines fs ++ t) = Some ([], fs).
 Proof.
   induction fs as [|f fs IH]; intros t H Ht.
   - cbn [block_lines flat_map app]. destruct Ht as [->|[e ->]]; reflexivity.
   - cbn [forallb] in H. apply andb_prop in H as [Hf H].
-    destruct (wf_field_inv f Hf) as [Hne Hn Hv Hvs _ Hc].
+    destruct (wf_field_inv f Hf) as [Hne Hn Hv Hvs Hc].
     cbn [block_lines flat_map]. change (flat_map field_lines fs) with (block_lines fs).
     unfold field_lines at 1. cbn [app]. rewrite <- app_assoc. cbn [group].
     rewrite (group_conts _ _ _ _ Hc (IH t H Ht)). rewrite app_nil_r.
@@ -344,7 +379,7 @@ Qed.
 Definition blank_opt (blank : bytes) : Prop := blank = [] \/ blank_ok blank.
 
 Lemma block_lines_plain : forall fs,
-  forallb wf_field fs = true -> Forall (fun l => forallb plainb (fst l) = true) (block_lines fs).
+  forallb xwf_field fs = true -> Forall (fun l => forallb plainb (fst l) = true) (block_lines fs).
 Proof.
   intros fs H. apply block_lines_ok in H. apply Forall_forall. intros l Hl.
   rewrite forallb_forall in H. specialize (H l Hl). unfold okline in H. apply andb_prop in H as [H _]. exact H.
@@ -353,10 +388,11 @@ Qed.
 Lemma render_lines_app : forall a b, render_lines (a ++ b) = render_lines a ++ render_lines b.
 Proof. intros. unfold render_lines. rewrite map_app, concat_app. reflexivity. Qed.
 
-Lemma parse_block_render : forall fs blank,
-  wf_block fs = true -> blank_opt blank -> parse_block (render fs ++ blank) = Some fs.
+Lemma lines_group_render : forall fs blank,
+  fs <> [] -> forallb xwf_field fs = true -> blank_opt blank ->
+  exists ls, lines_of (render fs ++ blank) = Some ls /\ group ls = Some ([], fs).
 Proof.
-  intros fs blank Hwf Hb. destruct (wf_block_inv fs Hwf) as [Hne Hall].
+  intros fs blank Hne Hall Hb.
   assert (E : exists t, tail_ok t /\ render fs ++ blank = render_lines (block_lines fs ++ t)
                         /\ Forall (fun l => forallb plainb (fst l) = true) t).
   { destruct Hb as [->|[->| ->]].
@@ -365,10 +401,25 @@ Proof.
       constructor; [reflexivity|constructor].
     - exists [([], true)]. split; [right; eexists; reflexivity|]. rewrite render_lines_app. split; [reflexivity|].
       constructor; [reflexivity|constructor]. }
-  destruct E as (t & Ht & E & Hp). rewrite E. unfold parse_block.
-  rewrite lines_of_render.
-  - rewrite (group_fields fs t Hall Ht), Hwf. reflexivity.
-  - apply Forall_app. split; [apply block_lines_plain; exact Hall|exact Hp].
+  destruct E as (t & Ht & E & Hp). rewrite E. exists (block_lines fs ++ t). split.
+  - apply lines_of_render. apply Forall_app. split; [apply block_lines_plain; exact Hall|exact Hp].
+  - exact (group_fields fs t Hall Ht).
+Qed.
+
+Lemma parse_block_render : forall fs blank,
+  wf_block fs = true -> blank_opt blank -> parse_block (render fs ++ blank) = Some fs.
+Proof.
+  intros fs blank Hwf Hb. destruct (wf_block_inv fs Hwf) as [Hne Hall].
+  destruct (lines_group_render fs blank Hne (wf_x_all fs Hall) Hb) as (ls & H1 & H2).
+  unfold parse_block. rewrite H1, H2, Hwf. reflexivity.
+Qed.
+
+Lemma parse_block_x_render : forall fs blank,
+  xwf_block fs = true -> blank_opt blank -> parse_block_x (render fs ++ blank) = Some fs.
+Proof.
+  intros fs blank Hwf Hb. destruct (xwf_block_inv fs Hwf) as [Hne Hall].
+  destruct (lines_group_render fs blank Hne Hall Hb) as (ls & H1 & H2).
+  unfold parse_block_x. rewrite H1, H2, Hwf. reflexivity.
 Qed.
 
 (* ------------------------------------------------------------------ *)
@@ -599,3 +650,121 @@ Proof.
     as (e' & H1 & _ & _ & _ & H5).
   exists e'. destruct (H5 ex_8bit) as (F & A & _). auto.
 Qed.
+
+(* ------------------------------------------------------------------ *)
+(* F.  _msg_generator: two attempts, each on a fresh buffer            *)
+(* ------------------------------------------------------------------ *)
+
+Section GeneratorFacts.
+  Variable src : Type.
+
+  Lemma write_headers_spec : forall (fold : src -> option bytes) hs buf,
+    match render_all src fold hs with
+    | Some b => write_headers src fold buf hs = Done (buf ++ b ++ CRLF)
+    | None => exists buf', write_headers src fold buf hs = Raised buf'
+    end.
+  Proof.
+    induction hs as [|h hs IH]; intros buf; cbn [render_all write_headers].
+    - reflexivity.
+    - destruct (fold h) as [b|]; [|eexists; reflexivity].
+      specialize (IH (buf ++ b)). destruct (render_all src fold hs) as [r|].
+      + rewrite IH, <- !app_assoc. reflexivity.
+      + exact IH.
+  Qed.
+
+  (* refinement to the tiny spec: whatever _msg_generator returns is every stored
+     header exactly once, in order, all rendered by the same policy, then the blank
+     line - on the first-attempt path and on the fallback path *)
+  Lemma no_duplication : forall (fold1 fold2 : src -> option bytes) hs,
+    msg_generator src fold1 fold2 hs =
+    match render_all src fold1 hs with
+    | Some b => GenOk (b ++ CRLF)
+    | None => match render_all src fold2 hs with
+              | Some b => GenOk (b ++ CRLF)
+              | None => GenRaises
+              end
+    end.
+  Proof.
+    intros fold1 fold2 hs. unfold msg_generator.
+    pose proof (write_headers_spec fold1 hs []) as H1. destruct (render_all src fold1 hs) as [b1|].
+    - rewrite H1. reflexivity.
+    - destruct H1 as [buf' ->].
+      pose proof (write_headers_spec fold2 hs []) as H2. destruct (render_all src fold2 hs) as [b2|].
+      + rewrite H2. reflexivity.
+      + destruct H2 as [buf2 ->]. reflexivity.
+  Qed.
+End GeneratorFacts.
+
+Lemma render_cons : forall f fs, render (f :: fs) = render [f] ++ render fs.
+Proof.
+  intros. unfold render, block_lines. cbn [flat_map]. rewrite app_nil_r, render_lines_app. reflexivity.
+Qed.
+
+Lemma render_all_raw : forall fs,
+  render_all field (fun f => Some (fold_raw f)) fs = Some (render (hnorm_fields fs)).
+Proof.
+  induction fs as [|f fs IH]; cbn [render_all]; [reflexivity|].
+  rewrite IH. unfold hnorm_fields. cbn [map]. rewrite (render_cons (crlf_field f)). reflexivity.
+Qed.
+
+Lemma render_all_short : forall fold_smtp fs,
+  fold_short_ok fold_smtp -> forallb wf_field fs = true ->
+  render_all field fold_smtp fs = Some (render (hnorm_fields fs)).
+Proof.
+  intros fold_smtp fs Hs. induction fs as [|f fs IH]; cbn [render_all forallb]; [reflexivity|].
+  intros H. apply andb_prop in H as [Hf Hfs]. rewrite (Hs f Hf), (IH Hfs).
+  unfold hnorm_fields. cbn [map]. rewrite (render_cons (crlf_field f)). reflexivity.
+Qed.
+
+(* parse + _msg_generator on header blocks that may hold over-long lines: body
+   exact; the generated block is every field exactly once - as email folds them
+   when every fold succeeds, as received (CRLF) when one of them raises *)
+Lemma fallback_flatten : forall (hparse : bytes -> list field * option bytes) (fold_smtp : field -> option bytes),
+  parser_ok_x hparse ->
+  forall fs blank B s r, xwf_block fs = true -> blank_ok blank ->
+  let e := parse (list field) hparse s r (render fs ++ blank ++ B) in
+  e_message e = B /\ e_headers e = fs /\
+  msg_generator field fold_smtp (fun f => Some (fold_raw f)) (e_headers e) =
+    match render_all field fold_smtp fs with
+    | Some b => GenOk (b ++ CRLF)
+    | None => GenOk (render (hnorm_fields fs) ++ CRLF)
+    end.
+Proof.
+  intros hparse fold_smtp Hp fs blank B s r Hwf Hb. unfold parse.
+  rewrite (search_xwf fs blank B Hwf Hb), (Hp fs blank Hwf Hb). cbn.
+  split; [reflexivity|]. split; [reflexivity|].
+  rewrite no_duplication, render_all_raw. reflexivity.
+Qed.
+
+(* ... and when every line is short (the property's class) the first attempt succeeds
+   with the fields as received *)
+Lemma fallback_short : forall fold_smtp fs,
+  fold_short_ok fold_smtp -> wf_block fs = true ->
+  msg_generator field fold_smtp (fun f => Some (fold_raw f)) fs = GenOk (render (hnorm_fields fs) ++ CRLF).
+Proof.
+  intros fold_smtp fs Hs Hwf. destruct (wf_block_inv fs Hwf) as [_ Hall].
+  rewrite no_duplication, (render_all_short fold_smtp fs Hs Hall). reflexivity.
+Qed.
+
+(* hypotheses satisfiable; and what the theorem excludes: the shared-buffer variant
+   writes the headers in front of the un-foldable one twice *)
+Definition hparse_x_total (d : bytes) : list field * option bytes :=
+  (match parse_block_x d with Some fs => fs | None => [] end, None).
+
+Example parser_ok_x_sat : parser_ok_x hparse_x_total.
+Proof.
+  intros fs blank Hwf Hb. unfold hparse_x_total.
+  rewrite (parse_block_x_render fs blank Hwf (or_intror Hb)). reflexivity.
+Qed.
+
+Example fold_short_ok_sat : fold_short_ok (fun f => if short (first_line f) then Some (fold_raw f) else None).
+Proof.
+  intros f H. unfold wf_field in H. apply andb_prop in H as [H _]. apply andb_prop in H as [_ H]. rewrite H. reflexivity.
+Qed.
+
+Example ex_shared_buffer_duplicates :
+  let fold1 := fun n : N => if n =? 2 then None else Some [n] in
+  let fold2 := fun n : N => Some [n] in
+  msg_generator N fold1 fold2 [1; 2; 3] = GenOk [1; 2; 3; 13; 10]
+  /\ msg_generator_shared N fold1 fold2 [1; 2; 3] = GenOk [1; 1; 2; 3; 13; 10].
+Proof. split; reflexivity. Qed.
